@@ -137,13 +137,24 @@ var tasks = []task{
 		ev := html.EscapeAttrVal(&buf, append([]byte{}, in...), byte("\"'\x00"[r.Intn(3)]), r.Intn(2) == 0)
 		var buf2 []byte
 		xv := xml.EscapeAttrVal(&buf2, append([]byte{}, in...))
+		var buf3, buf4 []byte
+		cd1, ok1 := xml.EscapeCDATAVal(&buf3, append([]byte{}, in...))
+		cd2, ok2 := xml.EscapeCDATAVal(&buf4, []byte("x&y<z]]>"))
+		esc := parse.AppendEscape(nil, append([]byte{}, in...), []byte("\"'<"), '\\')
+		q, qn := parse.QuoteEntity([]byte("&#x22;x"))
+		var ib bytes.Buffer
+		parse.NewIndenter(parse.NewIndenter(&ib, 2), 1).Write(in)
+		du := parse.DecodeURL(parse.EncodeURL(append([]byte{}, in...), parse.URLEncodingTable))
+		dn, dl := parse.Dimension([]byte("12.5e3px"))
 		mt, params := parse.Mediatype([]byte("text/html; charset=utf-8 ;q=1"))
 		dm, dd, derr := parse.DataURI([]byte("data:text/plain;base64,aGVsbG8="))
 		n := parse.Number([]byte("-12.5e+3px"))
 		line, col, ctx := parse.Position(bytes.NewReader(in), r.Intn(len(in)+1))
 		return sum(string(a), string(b), string(b2), string(ev), string(xv), string(mt), params, string(dm), string(dd), derr, n, line, col, ctx,
 			css.ToHash([]byte("font-face")), html.ToHash([]byte("script")), parse.EqualFold([]byte("AbC"), []byte("abc")),
-			string(parse.EncodeURL(append([]byte{}, in...), parse.URLEncodingTable)), css.IsIdent(in), string(parse.ToLower(append([]byte{}, in...))))
+			string(parse.EncodeURL(append([]byte{}, in...), parse.URLEncodingTable)), css.IsIdent(in), string(parse.ToLower(append([]byte{}, in...))),
+			string(cd1), ok1, string(cd2), ok2, string(esc), q, qn, ib.String(), string(du), dn, dl, css.IsURLUnquoted(in), js.AsIdentifierName(in), js.AsDecimalLiteral(in),
+			parse.IsAllWhitespace(in), string(parse.TrimWhitespace(append([]byte{}, in...))), parse.Printable(rune(append(append([]byte{}, in...), 120)[0])))
 	}},
 	{"cursor", func(r *rand.Rand, c map[string][]string) string {
 		in := pick(r, c["js"])
@@ -163,6 +174,17 @@ var tasks = []task{
 			}
 		}
 		fmt.Fprint(h, z.Err(), lx.Err(), sl.Err())
+		// a stream lexer of the default size, and one whose token outgrows its buffer several times (growth path)
+		sd := buffer.NewStreamLexer(bytes.NewReader(in))
+		sg := buffer.NewStreamLexerSize(bytes.NewReader(bytes.Repeat(in, 3)), 4)
+		for i := 0; i < len(in); i++ {
+			fmt.Fprint(h, sd.Peek(0), sg.Peek(0), sg.Peek(len(in)))
+			sd.Move(1)
+			sg.Move(2)
+		}
+		fmt.Fprint(h, string(sd.Shift()), len(sg.Shift()), sd.Err(), sg.Err())
+		sd.Free(sd.ShiftLen())
+		sg.Free(sg.ShiftLen())
 		return hex.EncodeToString(h.Sum(nil))
 	}},
 	{"binary", func(r *rand.Rand, c map[string][]string) string {
@@ -221,10 +243,9 @@ func Run(args []string) {
 	for i := range seeds {
 		seeds[i] = rng.Int63()
 	}
+	// The reference results ("solo": each task on its own, sequentially) are computed AFTER the concurrent passes: anything the
+	// library memoises or learns at first use must be touched for the first time while several goroutines are running.
 	solo := make([]string, *n)
-	for i := range seeds {
-		_, solo[i] = runTask(i, seeds[i], c)
-	}
 	w := tr.NewWriter(*out)
 	tid := 0
 	mism := 0
@@ -252,6 +273,12 @@ func Run(args []string) {
 			}(g)
 		}
 		wg.Wait()
+		if solo[0] == "" {
+			runtime.GOMAXPROCS(1)
+			for i := range seeds {
+				_, solo[i] = runTask(i, seeds[i], c)
+			}
+		}
 		// every goroutine's own log, in its own order
 		for g := 0; g < cfg.g; g++ {
 			tid++
